@@ -10,8 +10,12 @@ EXTRA_TRUST = [
     "(op `c16-tables`, identity of the returned / replaced array checked with `is`)",
     "the hand-written decision models ctorOutcome / shapeOutcome / termOutcome / bfaceOutcome / radialPeriodicOutcome "
     "mirror the code's cascades; tied to the code by the same exhaustive enumeration (lean/DriverErr.lean)",
-    "shapeOutcome models the shape cascade of CellVariable.__init__ only (an exception raised further down counts as "
-    "`the cascade let the value through`); the search judges the final outcome",
+    "shapeOutcome includes one stage that is characterised empirically, not derived from numpy semantics: a size-1 "
+    "value of rank above the mesh rank fails inside cellValuesWithBoundaries* (size1Downstream), checked for extents 1..4",
+    "a size-1 value of rank above the mesh rank on a single-cell 2-D/3-D mesh is excluded from the spec comparison "
+    "(ErrSpec.shapeOutOfScope: the code happens to accept it, either outcome is allowed)",
+    "constructor calls with the right number of arguments of the wrong types (type confusions) are outside the arity "
+    "property: the model is compared with the code, the documented behaviour only demands that no mesh is built",
 ]
 RULE = ("the enumeration is exhaustive over the finite tables (9 classes × labels × get/set × objects, arities 0..7 × "
         "both forms, all periodic-flag subsets, 9 term kinds, 5^3 coefficient types) and samples the shape families for "
